@@ -204,7 +204,10 @@ def source_mutants(pid):
                 if src.count(m['find']) != 1:
                     res.append(dict(id=m['id'], status='SKIP(patch does not apply to this tree)'))
                     continue
-                open(path, 'w').write(src.replace(m['find'], m['replace']))
+                new = src.replace(m['find'], m['replace'])
+                for f2, r2 in m.get('also') or []:
+                    new = new.replace(f2, r2)
+                open(path, 'w').write(new)
                 try:
                     env = dict(os.environ, VERIF_REPO=os.path.join(sc, 'repo'), VERIF_EVIDENCE_DIR=os.path.join(sc, 'ev'), VERIF_TIER='quick')
                     r = subprocess.run([os.path.join(VERIF, 'check'), pid, '--tier', 'quick'], cwd=VERIF, stdout=subprocess.PIPE,
